@@ -179,6 +179,16 @@ def build_http_harness():
     return out, o + e
 
 
+def canon_line(l):
+    """a download that serves nothing is one outcome: WHICH error http.ServeFile / the OS pick for a name that
+    cannot be opened (404 not found, 404 invalid name, 500 name too long — their precedence depends on
+    net/http and os details such as UTF-8 validation before the open) is not part of the property and not
+    modelled precisely"""
+    if l.startswith("down ") and l.endswith(" body=-"):
+        return re.sub(r" code=(404|500) body=-$", " code=nothing-served body=-", l)
+    return l
+
+
 class Tie(OpsTie):
     """OpsTie that prefixes every op list with the regenerated facts line"""
 
@@ -205,11 +215,11 @@ class Tie(OpsTie):
         elif rc != 0:
             err = "crash rc=%d %s" % (rc, e[-500:])
         lines = o.split("\n")[:-1] if o.endswith("\n") else o.split("\n")
-        return lines[1:], orc, err
+        return [canon_line(l) for l in lines[1:]], orc, err
 
     def model(self, ops):
         lines, err = OpsTie.model(self, [self.facts_line] + list(ops))
-        return lines[1:], err
+        return [canon_line(l) for l in lines[1:]], err
 
 
 class WrongModelTie(Tie):
